@@ -123,24 +123,24 @@ theorem feedbackOf_ready {cfg : TagCfg} {s s' : Sim} {key : Bool × Nat} {k : RL
 
 /-- the simulator's own errors are never at a `U2` site -/
 theorem feedbackForStartTag_noU2 {cfg : TagCfg} {s : Sim} {t : Nat} {e : Err}
-    (h : s.feedbackForStartTag cfg t = .error e) : ¬ U2err e := by
+    (h : s.feedbackForStartTag cfg t = .error e) : ¬ U3err e := by
   rw [LolHtml.Lemmas.Sim.start_eq] at h
   rcases LolHtml.Lemmas.Sim.guardStart_cases cfg s t with ⟨g, hg⟩ | ⟨_, hg⟩
   · rw [hg] at h
     dsimp only at h
     unfold LolHtml.Lemmas.Sim.startCore at h
-    (repeat' split at h) <;> first | (cases h; done) | (simp only [Except.error.injEq] at h; subst h; simp [U2err, U2])
+    (repeat' split at h) <;> first | (cases h; done) | (simp only [Except.error.injEq] at h; subst h; simp [U3err, U2err, U2, guardSite])
   · rw [hg] at h
     simp only [Except.error.injEq] at h
     subst h
-    simp [U2err]
+    simp [U3err, U2err, guardSite]
 
 theorem feedbackForEndTag_noU2 {cfg : TagCfg} {s : Sim} {t : Nat} {e : Err}
-    (h : s.feedbackForEndTag cfg t = .error e) : ¬ U2err e := by
+    (h : s.feedbackForEndTag cfg t = .error e) : ¬ U3err e := by
   rw [LolHtml.Lemmas.Sim.end_eq] at h
   split at h
   · cases h
-  · simp only [Except.error.injEq] at h; subst h; simp [U2err, U2]
+  · simp only [Except.error.injEq] at h; subst h; simp [U3err, U2err, U2, guardSite]
 
 
 /-! ### the lexer's feedback handling -/
@@ -160,7 +160,7 @@ theorem tagViewFor_isStart {k : RLKind} {inp : Bytes} {tok : TagOutline} {v : Ta
 
 theorem lexGetFeedback_X {cfg : TagCfg} {sim : Sim} (hinv : Inv sim) (fd : FeedbackDirective) (tok : TagOutline)
     (hfd : ∀ k, fd = .applyUnhandled (.requestLexeme k) → CallbackReady sim k tok.isStart) :
-    (∀ e, lexGetFeedback cfg sim fd tok = .error e → ¬ U2err e) ∧
+    (∀ e, lexGetFeedback cfg sim fd tok = .error e → ¬ U3err e) ∧
     (∀ r, lexGetFeedback cfg sim fd tok = .ok r →
       Inv r.1 ∧ ∀ k, r.2 = some (.requestLexeme k) → CallbackReady r.1 k tok.isStart) := by
   unfold lexGetFeedback
@@ -211,14 +211,14 @@ theorem lexGetFeedback_X {cfg : TagCfg} {sim : Sim} (hinv : Inv sim) (fd : Feedb
 /-- `handle_tree_builder_feedback` on a ready simulator: no `U2` error, the simulator invariant kept -/
 theorem lexHandleFeedback_X (inp : Bytes) (c : Common) (sim : Sim) (f : Feedback) (o : TagOutline) (hi : Inv sim)
     (hr : ∀ k, f = .requestLexeme k → CallbackReady sim k o.isStart) :
-    (∀ e, lexHandleFeedback inp c sim f o = .error e → ¬ U2err e) ∧
+    (∀ e, lexHandleFeedback inp c sim f o = .error e → ¬ U3err e) ∧
     (∀ r, lexHandleFeedback inp c sim f o = .ok r → Inv r.2) := by
   have hsimple : ∀ (c : Common) (sim : Sim) (f : Feedback), Lemmas.Sim.Inv sim →
       (∀ e : Err, (match f with
         | .switchTextType t => (.ok ({ c with lastTextType := t }, sim) : Except Err (Common × Sim))
         | .setAllowCdata b => .ok ({ c with cdataAllowed := b }, sim)
         | .none => .ok (c, sim)
-        | .requestLexeme _ => .error (.panic "nested RequestLexeme")) = .error e → ¬ U2err e) ∧
+        | .requestLexeme _ => .error (.panic "nested RequestLexeme")) = .error e → ¬ U3err e) ∧
       (∀ r : Common × Sim, (match f with
         | .switchTextType t => (.ok ({ c with lastTextType := t }, sim) : Except Err (Common × Sim))
         | .setAllowCdata b => .ok ({ c with cdataAllowed := b }, sim)
@@ -230,7 +230,7 @@ theorem lexHandleFeedback_X (inp : Bytes) (c : Common) (sim : Sim) (f : Feedback
     all_goals first
       | (cases h; done)
       | (simp only [Except.ok.injEq] at h; subst h; exact hi)
-      | (simp only [Except.error.injEq] at h; subst h; simp [U2err, U2])
+      | (simp only [Except.error.injEq] at h; subst h; simp [U3err, U2err, U2, guardSite])
   unfold lexHandleFeedback
   dsimp only
   cases f with
@@ -240,7 +240,7 @@ theorem lexHandleFeedback_X (inp : Bytes) (c : Common) (sim : Sim) (f : Feedback
     cases hv : tagViewFor k inp o with
     | none =>
       refine ⟨fun e h => ?_, fun r h => by cases h⟩
-      simp only [Except.error.injEq] at h; subst h; simp [U2err, U2]
+      simp only [Except.error.injEq] at h; subst h; simp [U3err, U2err, U2, guardSite]
     | some v =>
       have hvs := tagViewFor_isStart hv
       dsimp only
@@ -264,7 +264,7 @@ theorem lexHandleFeedback_X (inp : Bytes) (c : Common) (sim : Sim) (f : Feedback
 /-! ### the scanner instance -/
 
 section
-variable {env : Env κ} {inp : Bytes} {Pend : κ → Bool} {Good : κ → Prop}
+variable {env : Env κ} {inp : Bytes} {Pend : κ → Bool} {Good : κ → Prop} {K : Bool} {Uerr : Err → Prop}
 
 /-- scanner: the sink flags are consistent, nothing is pending, the simulator invariant holds -/
 def ScanX (Pend : κ → Bool) (Good : κ → Prop) (_ab : Ab) (m : M κ) : Prop :=
@@ -275,31 +275,30 @@ def ScanJ (Good : κ → Prop) (d : Directive) (_bm : Bookmark) (m : M κ) : Pro
   d = .lex ∧ m.isScanner = true ∧ Good m.x.sink ∧ Inv m.x.sim
 
 /-- outcome of an action: `A` on the machine if it did not signal, a non-`U2` error, or a hand-over -/
-def SigPost (A : M κ → Prop) (Jx : Directive → Bookmark → M κ → Prop) (r : M κ × Option Signal) : Prop :=
+def SigPost (Uerr : Err → Prop) (A : M κ → Prop) (Jx : Directive → Bookmark → M κ → Prop) (r : M κ × Option Signal) : Prop :=
   match r.2 with
   | none => A r.1
-  | some (.err e) => ¬ U2err e
+  | some (.err e) => ¬ Uerr e
   | some (.directive d bm) => Jx d bm r.1
   | some (.endOfInput _) => False
 
-theorem scanEmitHint_X (hx : XLaws env.ops inp Pend Good) (c : Common) (s : ScanRegs) (x : Ctx κ) (ts : Nat) (iet : Bool)
+theorem scanEmitHint_X (hx : XLaws env.ops inp Pend Good K Uerr) (c : Common) (s : ScanRegs) (x : Ctx κ) (ts : Nat) (iet : Bool)
     (hg : Good x.sink) (hi : Inv x.sim) (hp : Pend x.sink = false) (ab : Ab) :
-    SigPost (ScanX Pend Good ab) (ScanJ Good) (scanEmitHint env inp c s x ts iet) := by
+    SigPost Uerr (ScanX Pend Good ab) (ScanJ Good) (scanEmitHint env inp c s x ts iet) := by
   unfold scanEmitHint
   split
-  · simp [SigPost, U2err, U2]
+  · exact hx.noU (by simp [U3err, U2err, U2, guardSite])
   · rename_i name _
     dsimp only
     cases iet with
     | true =>
       simp only [if_true]
       have g := hx.goodE name x.sink hg hp
-      have p := hx.hint.end_ name x.sink hp
       cases hr : (env.ops.endTagHint name x.sink).2 with
       | error e => exact hx.errE _ _ _ hr
       | ok d =>
         cases d with
-        | scan => exact ⟨rfl, g, hi, p⟩
+        | scan => exact ⟨rfl, g, hi, hx.hint.end_ name x.sink hp hr⟩
         | lex => exact ⟨rfl, rfl, g, hi⟩
     | false =>
       simp only [Bool.false_eq_true, if_false]
@@ -311,17 +310,17 @@ theorem scanEmitHint_X (hx : XLaws env.ops inp Pend Good) (c : Common) (s : Scan
         | scan => exact ⟨rfl, g, hi, hx.hint.start name _ x.sink hp hr⟩
         | lex => exact ⟨rfl, rfl, g, hi⟩
 
-theorem scanFinishTagName_X (hx : XLaws env.ops inp Pend Good) (c : Common) (s : ScanRegs) (x : Ctx κ)
+theorem scanFinishTagName_X (hx : XLaws env.ops inp Pend Good K Uerr) (c : Common) (s : ScanRegs) (x : Ctx κ)
     (hg : Good x.sink) (hi : Inv x.sim) (hp : Pend x.sink = false) (ab : Ab) :
-    SigPost (ScanX Pend Good ab) (ScanJ Good) (scanFinishTagName env inp c s x) := by
+    SigPost Uerr (ScanX Pend Good ab) (ScanJ Good) (scanFinishTagName env inp c s x) := by
   unfold scanFinishTagName
   split
-  · simp [SigPost, U2err, U2]
+  · exact hx.noU (by simp [U3err, U2err, U2, guardSite])
   · rename_i ts _
     dsimp only
     have hfb : ∀ r, (if s.isInEndTag = true then x.sim.feedbackForEndTag env.cfg s.tagNameHash
         else x.sim.feedbackForStartTag env.cfg s.tagNameHash) = r →
-        (∀ e, r = .error e → ¬ U2err e) ∧ (∀ v, r = .ok v → Lemmas.Sim.Inv v.1) := by
+        (∀ e, r = .error e → ¬ U3err e) ∧ (∀ v, r = .ok v → Lemmas.Sim.Inv v.1) := by
       intro r hr
       subst hr
       cases s.isInEndTag with
@@ -333,7 +332,7 @@ theorem scanFinishTagName_X (hx : XLaws env.ops inp Pend Good) (c : Common) (s :
         exact ⟨fun e h => feedbackForStartTag_noU2 h, (Sim.feedbackForStartTag_inv (cfg := env.cfg) hi _).2⟩
     split
     · rename_i e he
-      exact (hfb _ he).1 e rfl
+      exact hx.noU ((hfb _ he).1 e rfl)
     · rename_i sf he
       have hi' := (hfb _ he).2 sf rfl
       try dsimp only
@@ -349,7 +348,8 @@ theorem scanAct_ret (a : ActName) (ha : a ≠ .finishTagName) (c : Common) (s : 
     | exact ⟨_, _, rfl⟩
     | (split <;> exact ⟨_, _, rfl⟩)
 
-theorem scan_phinv (hx : XLaws env.ops inp Pend Good) : PhInv env inp (ScanX Pend Good) (ScanJ Good) where
+theorem scan_phinv (hx : XLaws env.ops inp Pend Good K Uerr) : PhInv env inp Uerr (ScanX Pend Good) (ScanJ Good) where
+  sub := hx.sub
   frame := fun ab m c' h => h
   adjust := by
     intro ab m h
@@ -393,35 +393,35 @@ end
 /-! ### the lexer instance -/
 
 section
-variable {env : Env κ} {inp : Bytes} {Pend : κ → Bool} {Good : κ → Prop}
+variable {env : Env κ} {inp : Bytes} {Pend : κ → Bool} {Good : κ → Prop} {K : Bool} {Uerr : Err → Prop}
 
 /-- normal mode: no feedback directive left over from the scanner, no aux-info request pending -/
 def LNormal (Pend : κ → Bool) (fd : FeedbackDirective) (x : Ctx κ) : Prop := fd = .none ∧ Pend x.sink = false
 
 /-- inside the re-lexed tag: a tag token of the hinted kind (a pending request belongs to a start tag;
 the simulator is ready for the callback of an unhandled request) -/
-def LInTag (Pend : κ → Bool) (fd : FeedbackDirective) (ct : Option TagOutline) (x : Ctx κ) : Prop :=
-  ∃ tok, ct = some tok ∧ (Pend x.sink = true → tok.isStart = true) ∧
+def LInTag (Pend : κ → Bool) (K : Bool) (fd : FeedbackDirective) (ct : Option TagOutline) (x : Ctx κ) : Prop :=
+  ∃ tok, ct = some tok ∧ (Pend x.sink = true → tok.isStart = K) ∧
     ∀ k, fd = .applyUnhandled (.requestLexeme k) → CallbackReady x.sim k tok.isStart
 
-def LCore (Pend : κ → Bool) (Good : κ → Prop) (ab : Ab) (fd : FeedbackDirective) (ct : Option TagOutline) (x : Ctx κ) : Prop :=
-  Good x.sink ∧ Inv x.sim ∧ (LNormal Pend fd x ∨ (ab = .inTag ∧ LInTag Pend fd ct x))
+def LCore (Pend : κ → Bool) (Good : κ → Prop) (K : Bool) (ab : Ab) (fd : FeedbackDirective) (ct : Option TagOutline) (x : Ctx κ) : Prop :=
+  Good x.sink ∧ Inv x.sim ∧ (LNormal Pend fd x ∨ (ab = .inTag ∧ LInTag Pend K fd ct x))
 
-def LexX (Pend : κ → Bool) (Good : κ → Prop) (ab : Ab) (m : M κ) : Prop :=
-  ∃ c l x, m = ⟨c, .lexer l, x⟩ ∧ LCore Pend Good ab l.fd l.curTag x
+def LexX (Pend : κ → Bool) (Good : κ → Prop) (K : Bool) (ab : Ab) (m : M κ) : Prop :=
+  ∃ c l x, m = ⟨c, .lexer l, x⟩ ∧ LCore Pend Good K ab l.fd l.curTag x
 
 def LexJ (Pend : κ → Bool) (Good : κ → Prop) (d : Directive) (bm : Bookmark) (m : M κ) : Prop :=
   d = .scan ∧ bm.fd = .none ∧ ∃ c l x, m = ⟨c, .lexer l, x⟩ ∧ Good x.sink ∧ Inv x.sim ∧ LNormal Pend l.fd x
 
 /-- the machine satisfies `A`, and the signal is nothing or a non-`U2` error -/
-def Quiet (A : M κ → Prop) (r : M κ × Option Signal) : Prop :=
-  A r.1 ∧ (r.2 = none ∨ ∃ e, r.2 = some (.err e) ∧ ¬ U2err e)
+def Quiet (Uerr : Err → Prop) (A : M κ → Prop) (r : M κ × Option Signal) : Prop :=
+  A r.1 ∧ (r.2 = none ∨ ∃ e, r.2 = some (.err e) ∧ ¬ Uerr e)
 
-theorem Quiet.act {A : M κ → Prop} {Jx : Directive → Bookmark → M κ → Prop} {a : ActName} {r : M κ × Option Signal}
-    (h : Quiet A r) :
+theorem Quiet.act {Uerr : Err → Prop} {A : M κ → Prop} {Jx : Directive → Bookmark → M κ → Prop} {a : ActName} {r : M κ × Option Signal}
+    (h : Quiet Uerr A r) :
     match r.2 with
     | none => A r.1
-    | some (.err e) => ¬ U2err e ∧ (silentAct a = true → A r.1)
+    | some (.err e) => ¬ Uerr e ∧ (silentAct a = true → A r.1)
     | some (.directive d bm) => silentAct a = false ∧ Jx d bm r.1
     | some (.endOfInput _) => False := by
   obtain ⟨h1, h2⟩ := h
@@ -429,16 +429,16 @@ theorem Quiet.act {A : M κ → Prop} {Jx : Directive → Bookmark → M κ → 
   · rw [h2]; exact h1
   · rw [h2]; exact ⟨h3, fun _ => h1⟩
 
-theorem LCore.sink {ab : Ab} {fd : FeedbackDirective} {ct : Option TagOutline} {x : Ctx κ} (h : LCore Pend Good ab fd ct x)
-    (s' : κ) (hg : Good x.sink → Good s') (hp : Pend s' = Pend x.sink) : LCore Pend Good ab fd ct { x with sink := s' } := by
+theorem LCore.sink {ab : Ab} {fd : FeedbackDirective} {ct : Option TagOutline} {x : Ctx κ} (h : LCore Pend Good K ab fd ct x)
+    (s' : κ) (hg : Good x.sink → Good s') (hp : Pend s' = Pend x.sink) : LCore Pend Good K ab fd ct { x with sink := s' } := by
   obtain ⟨h1, h2, h3⟩ := h
   refine ⟨hg h1, h2, ?_⟩
   rcases h3 with ⟨a, b⟩ | ⟨a, tok, b1, b2, b3⟩
   · exact Or.inl ⟨a, by rw [hp]; exact b⟩
   · exact Or.inr ⟨a, tok, b1, fun hh => b2 (by rw [← hp]; exact hh), b3⟩
 
-theorem LCore.tag {ab : Ab} {fd : FeedbackDirective} {ct ct' : Option TagOutline} {x : Ctx κ} (h : LCore Pend Good ab fd ct x)
-    (hk : ∀ tok, ct = some tok → ∃ tok', ct' = some tok' ∧ tok'.isStart = tok.isStart) : LCore Pend Good ab fd ct' x := by
+theorem LCore.tag {ab : Ab} {fd : FeedbackDirective} {ct ct' : Option TagOutline} {x : Ctx κ} (h : LCore Pend Good K ab fd ct x)
+    (hk : ∀ tok, ct = some tok → ∃ tok', ct' = some tok' ∧ tok'.isStart = tok.isStart) : LCore Pend Good K ab fd ct' x := by
   obtain ⟨h1, h2, h3⟩ := h
   refine ⟨h1, h2, ?_⟩
   rcases h3 with h3 | ⟨a, tok, b1, b2, b3⟩
@@ -447,16 +447,16 @@ theorem LCore.tag {ab : Ab} {fd : FeedbackDirective} {ct ct' : Option TagOutline
     exact Or.inr ⟨a, tok', t1, fun hh => by rw [t2]; exact b2 hh, fun k hk' => by rw [t2]; exact b3 k hk'⟩
 
 theorem LCore.out {ab ab' : Ab} {fd : FeedbackDirective} {ct ct' : Option TagOutline} {x : Ctx κ}
-    (h : LCore Pend Good ab fd ct x) (hab : ab ≠ .inTag) : LCore Pend Good ab' fd ct' x := by
+    (h : LCore Pend Good K ab fd ct x) (hab : ab ≠ .inTag) : LCore Pend Good K ab' fd ct' x := by
   obtain ⟨h1, h2, h3⟩ := h
   refine ⟨h1, h2, ?_⟩
   rcases h3 with h3 | ⟨a, _⟩
   · exact Or.inl h3
   · exact absurd a hab
 
-theorem lexEmitNonTag_L (hx : XLaws env.ops inp Pend Good) (c : Common) (l : LexRegs) (x : Ctx κ) (o : Option NonTagOutline)
-    (e : Nat) (ab : Ab) (h : LCore Pend Good ab l.fd l.curTag x) :
-    Quiet (fun m => ∃ l' x', m = ⟨c, .lexer l', x'⟩ ∧ LCore Pend Good ab l'.fd l'.curTag x')
+theorem lexEmitNonTag_L (hx : XLaws env.ops inp Pend Good K Uerr) (c : Common) (l : LexRegs) (x : Ctx κ) (o : Option NonTagOutline)
+    (e : Nat) (ab : Ab) (h : LCore Pend Good K ab l.fd l.curTag x) :
+    Quiet Uerr (fun m => ∃ l' x', m = ⟨c, .lexer l', x'⟩ ∧ LCore Pend Good K ab l'.fd l'.curTag x')
       (lexEmitNonTag env inp c l x o e) := by
   unfold lexEmitNonTag
   dsimp only
@@ -465,18 +465,18 @@ theorem lexEmitNonTag_L (hx : XLaws env.ops inp Pend Good) (c : Common) (l : Lex
   | ok u => exact ⟨⟨_, _, rfl, hc⟩, Or.inl rfl⟩
   | error e' => exact ⟨⟨_, _, rfl, hc⟩, Or.inr ⟨e', rfl, hx.errNT _ _ _ hr⟩⟩
 
-theorem lexEmitText_L (hx : XLaws env.ops inp Pend Good) (c : Common) (l : LexRegs) (x : Ctx κ)
-    (ab : Ab) (h : LCore Pend Good ab l.fd l.curTag x) :
-    Quiet (fun m => ∃ l' x', m = ⟨c, .lexer l', x'⟩ ∧ LCore Pend Good ab l'.fd l'.curTag x')
+theorem lexEmitText_L (hx : XLaws env.ops inp Pend Good K Uerr) (c : Common) (l : LexRegs) (x : Ctx κ)
+    (ab : Ab) (h : LCore Pend Good K ab l.fd l.curTag x) :
+    Quiet Uerr (fun m => ∃ l' x', m = ⟨c, .lexer l', x'⟩ ∧ LCore Pend Good K ab l'.fd l'.curTag x')
       (lexEmitText env inp c l x) := by
   unfold lexEmitText
   split
   · exact lexEmitNonTag_L hx c l x _ _ ab h
   · exact ⟨⟨_, _, rfl, h⟩, Or.inl rfl⟩
 
-theorem andThen_eof_L (hx : XLaws env.ops inp Pend Good) (c : Common) (ab : Ab) (r : M κ × Option Signal)
-    (h : Quiet (fun m => ∃ l' x', m = ⟨c, .lexer l', x'⟩ ∧ LCore Pend Good ab l'.fd l'.curTag x') r) :
-    Quiet (fun m => ∃ l' x', m = ⟨c, .lexer l', x'⟩ ∧ LCore Pend Good ab l'.fd l'.curTag x')
+theorem andThen_eof_L (hx : XLaws env.ops inp Pend Good K Uerr) (c : Common) (ab : Ab) (r : M κ × Option Signal)
+    (h : Quiet Uerr (fun m => ∃ l' x', m = ⟨c, .lexer l', x'⟩ ∧ LCore Pend Good K ab l'.fd l'.curTag x') r) :
+    Quiet Uerr (fun m => ∃ l' x', m = ⟨c, .lexer l', x'⟩ ∧ LCore Pend Good K ab l'.fd l'.curTag x')
       (andThen r (lexEmitEof env inp)) := by
   unfold andThen
   obtain ⟨⟨l', x', hm, hc⟩, h2⟩ := h
@@ -493,48 +493,48 @@ theorem andThen_eof_L (hx : XLaws env.ops inp Pend Good) (c : Common) (ab : Ab) 
 theorem lexStampTag_isStart (c : Common) (sim : Sim) (tok : TagOutline) : (lexStampTag c sim tok).2.isStart = tok.isStart := by
   cases tok <;> rfl
 
-theorem lexEmitTagLexeme_L (hx : XLaws env.ops inp Pend Good) (c : Common) (l : LexRegs) (x : Ctx κ) (sim : Sim)
+theorem lexEmitTagLexeme_L (hx : XLaws env.ops inp Pend Good K Uerr) (c : Common) (l : LexRegs) (x : Ctx κ) (sim : Sim)
     (tok : TagOutline) (e : Nat) (ab : Ab) (hfd : l.fd = .none) (hg : Good x.sink) (hi : Inv sim)
-    (hpend : Pend x.sink = true → tok.isStart = true) :
-    SigPost (LexX Pend Good ab) (LexJ Pend Good) (lexEmitTagLexeme env inp c l x sim tok e) := by
+    (hpend : Pend x.sink = true → tok.isStart = K) :
+    SigPost Uerr (LexX Pend Good K ab) (LexJ Pend Good) (lexEmitTagLexeme env inp c l x sim tok e) := by
   unfold lexEmitTagLexeme
   dsimp only
-  have g := hx.goodT ⟨x.prevConsumed, ⟨l.lexemeStart, e⟩, tok⟩ x.sink hg
+  have g := hx.goodT ⟨x.prevConsumed, ⟨l.lexemeStart, e⟩, tok⟩ x.sink hg hpend
   cases hr : (env.ops.handleTag inp ⟨x.prevConsumed, ⟨l.lexemeStart, e⟩, tok⟩ x.sink).2 with
   | error e' =>
-    show ¬ U2err e'
+    show ¬ Uerr e'
     intro hu
     obtain ⟨p1, p2⟩ := hx.errT _ _ _ hr hu
     have := hpend p1
     simp only at p2
     rw [p2] at this
-    cases this
+    cases K <;> cases this
   | ok d =>
     have p := hx.pendT _ _ d hg hr
     cases d with
     | lex => exact ⟨_, _, _, rfl, g, hi, Or.inl ⟨hfd, p⟩⟩
     | scan => exact ⟨rfl, rfl, _, _, _, rfl, g, hi, hfd, p⟩
 
-theorem lexEmitTag_L (hx : XLaws env.ops inp Pend Good) (c : Common) (l : LexRegs) (x : Ctx κ) (ab ab' : Ab)
-    (h : LCore Pend Good ab l.fd l.curTag x) :
-    SigPost (LexX Pend Good ab') (LexJ Pend Good) (lexEmitTag env inp c l x) := by
+theorem lexEmitTag_L (hx : XLaws env.ops inp Pend Good K Uerr) (c : Common) (l : LexRegs) (x : Ctx κ) (ab ab' : Ab)
+    (h : LCore Pend Good K ab l.fd l.curTag x) :
+    SigPost Uerr (LexX Pend Good K ab') (LexJ Pend Good) (lexEmitTag env inp c l x) := by
   obtain ⟨hg, hi, hmode⟩ := h
   unfold lexEmitTag
   cases hct : l.curTag with
-  | none => simp [SigPost, U2err, U2]
+  | none => exact hx.noU (by simp [U3err, U2err, U2, guardSite])
   | some tok =>
     dsimp only
     have hfd : ∀ k, l.fd = .applyUnhandled (.requestLexeme k) → CallbackReady x.sim k tok.isStart := by
       rcases hmode with ⟨a, _⟩ | ⟨_, tok', b1, _, b3⟩
       · intro k hk; rw [a] at hk; cases hk
       · rw [hct] at b1; simp only [Option.some.injEq] at b1; subst b1; exact b3
-    have hpend : Pend x.sink = true → tok.isStart = true := by
+    have hpend : Pend x.sink = true → tok.isStart = K := by
       rcases hmode with ⟨_, b⟩ | ⟨_, tok', b1, b2, _⟩
       · intro hh; rw [b] at hh; cases hh
       · rw [hct] at b1; simp only [Option.some.injEq] at b1; subst b1; exact b2
     obtain ⟨g1, g2⟩ := lexGetFeedback_X (cfg := env.cfg) hi l.fd tok hfd
     cases hgf : lexGetFeedback env.cfg x.sim l.fd tok with
-    | error e => exact g1 e hgf
+    | error e => exact hx.noU (g1 e hgf)
     | ok sf =>
       obtain ⟨hi1, hready⟩ := g2 sf hgf
       dsimp only
@@ -548,7 +548,7 @@ theorem lexEmitTag_L (hx : XLaws env.ops inp Pend Good) (c : Common) (l : LexReg
         obtain ⟨k1, k2⟩ := lexHandleFeedback_X inp { c with lastTextType := .data } sf.1 f tok hi1
           (fun k hk => hready k (by rw [hsf, hk]))
         cases hh : lexHandleFeedback inp { c with lastTextType := .data } sf.1 f tok with
-        | error e => exact k1 e hh
+        | error e => exact hx.noU (k1 e hh)
         | ok cs =>
           dsimp only
           apply lexEmitTagLexeme_L hx _ _ _ _ _ _ _ rfl hg (k2 cs hh)
@@ -595,7 +595,8 @@ theorem lexAct_plain (a : ActName) (ha : plainAct a = true) (c : Common) (l : Le
 theorem align_isStart (t : TagOutline) (o : Nat) : (t.align o).isStart = t.isStart := by
   cases t <;> rfl
 
-theorem lex_phinv (hx : XLaws env.ops inp Pend Good) : PhInv env inp (LexX Pend Good) (LexJ Pend Good) where
+theorem lex_phinv (hx : XLaws env.ops inp Pend Good K Uerr) : PhInv env inp Uerr (LexX Pend Good K) (LexJ Pend Good) where
+  sub := hx.sub
   frame := by
     intro ab m c' ⟨c, l, x, hm, h⟩
     subst hm
@@ -629,8 +630,8 @@ theorem lex_phinv (hx : XLaws env.ops inp Pend Good) : PhInv env inp (LexX Pend 
     subst hm
     simp only [act]
     have hmono : ∀ {r : M κ × Option Signal} {ab1 : Ab},
-        Quiet (fun m => ∃ l' x', m = ⟨c, .lexer l', x'⟩ ∧ LCore Pend Good ab1 l'.fd l'.curTag x') r →
-        Quiet (LexX Pend Good ab1) r := by
+        Quiet Uerr (fun m => ∃ l' x', m = ⟨c, .lexer l', x'⟩ ∧ LCore Pend Good K ab1 l'.fd l'.curTag x') r →
+        Quiet Uerr (LexX Pend Good K ab1) r := by
       intro r ab1 ⟨⟨l', x', e1, e2⟩, q⟩
       exact ⟨⟨c, l', x', e1, e2⟩, q⟩
     by_cases hplain : plainAct a = true
@@ -687,7 +688,7 @@ theorem lex_phinv (hx : XLaws env.ops inp Pend Good) : PhInv env inp (LexX Pend 
         have hab : ab ≠ .inTag := by intro hh; subst hh; simp [phAct] at hp
         cases hct : l.curTag with
         | some t => exact ⟨c, _, x, rfl, h.out hab⟩
-        | none => exact ⟨by simp [U2err, U2], fun hh => by simp [silentAct] at hh⟩
+        | none => exact ⟨hx.noU (by simp [U3err, U2err, U2, guardSite]), fun hh => by simp [silentAct] at hh⟩
       case updateTagNameHash =>
         have hab : ab ≠ .inTag := by intro hh; subst hh; simp [phAct] at hp
         cases hb : inp[c.pos]? with
@@ -695,7 +696,7 @@ theorem lex_phinv (hx : XLaws env.ops inp Pend Good) : PhInv env inp (LexX Pend 
         | some ch =>
           cases hct : l.curTag with
           | some t => exact ⟨c, _, x, rfl, h.out hab⟩
-          | none => exact ⟨by simp [U2err, U2], fun _ => ⟨c, _, x, rfl, h.out hab⟩⟩
+          | none => exact ⟨hx.noU (by simp [U3err, U2err, U2, guardSite]), fun _ => ⟨c, _, x, rfl, h.out hab⟩⟩
 
 end
 
